@@ -1,0 +1,23 @@
+//go:build verif
+
+package xerrors
+
+// Contracts for the deductive checks in /verif (tool: govc). Comment-only; build tag `verif`.
+// Error values: only nil-ness and identity with the package-level sentinels matter to callers.
+
+//@ func (e XError) Wrap(err)
+//@   pure
+//@   ensures result != nil && fresh(result)
+
+//@ func (e XError) Wrapf(format, args)
+//@   pure
+//@   ensures result != nil && fresh(result)
+
+//@ func (e XError) Error()
+//@   pure
+
+//@ func (e XError) Code()
+//@   pure
+
+//@ func (e XError) Cause()
+//@   pure
